@@ -144,7 +144,7 @@ func (t afTransport) RoundTrip(r *http.Request) (*http.Response, error) {
 	w.mu.Lock()
 	st := w.cur
 	w.idpCalls = append(w.idpCalls, M{"kind": kind, "host": r.URL.Host, "path": r.URL.Path, "token": form.Get("token") + form.Get("access_token") + r.URL.Query().Get("token"),
-		"refresh_token": form.Get("refresh_token"), "code": form.Get("code"), "auth": r.Header.Get("Authorization")})
+		"refresh_token": form.Get("refresh_token"), "code": form.Get("code"), "auth": r.Header.Get("Authorization"), "hint": form.Get("token_type_hint"), "rawToken": form.Get("token")})
 	w.mu.Unlock()
 	if st == nil {
 		return nil, fmt.Errorf("no scripted step")
